@@ -13,6 +13,8 @@ import (
 	pb "github.com/AliceO2Group/Control/core/protos"
 
 	"verif/harness/coresim"
+	"github.com/mesos/mesos-go/api/v1/lib/scheduler"
+
 	simmesos "verif/harness/sim/mesos"
 	"verif/harness/vlib"
 )
@@ -21,6 +23,11 @@ type c18Scenario struct {
 	Kind  string `json:"kind"`  // crash | reconnect
 	Point string `json:"point"` // where
 	Shape int    `json:"shape"` // workflow shape
+	// NoCheckpoint: the core runs with mesosCheckpoint=false (identity and clean-up must not depend on it)
+	NoCheckpoint bool `json:"no_checkpoint,omitempty"`
+	// ReconcileLost: the master refuses the first RECONCILE call of the new life (503): the client
+	// re-subscribes, and the new subscription has to reconcile again
+	ReconcileLost bool `json:"reconcile_lost,omitempty"`
 }
 
 var c18CrashPoints = []string{"launched-not-running", "configure-outstanding", "configured", "start-outstanding", "running", "stop-outstanding", "stopped", "reset-outstanding", "teardown-first-kill", "destroyed"}
@@ -37,8 +44,19 @@ func c18Scenarios(c *vlib.Ctx) []c18Scenario {
 				out = append(out, c18Scenario{Kind: "reconnect", Point: p, Shape: shape})
 			}
 		}
+		for i, p := range c18CrashPoints {
+			out = append(out, c18Scenario{Kind: "crash", Point: p, Shape: i % 3, NoCheckpoint: true})
+			out = append(out, c18Scenario{Kind: "crash", Point: p, Shape: (i + 1) % 3, ReconcileLost: true})
+		}
+		for i, p := range c18ReconnectPoints {
+			out = append(out, c18Scenario{Kind: "reconnect", Point: p, Shape: i % 3, NoCheckpoint: true})
+		}
 		return out
 	}
+	out = append(out, c18Scenario{Kind: "crash", Point: "running", Shape: 2, NoCheckpoint: true},
+		c18Scenario{Kind: "reconnect", Point: "configured", Shape: 1, NoCheckpoint: true},
+		c18Scenario{Kind: "crash", Point: "configured", Shape: 1, ReconcileLost: true},
+		c18Scenario{Kind: "crash", Point: "start-outstanding", Shape: 2, ReconcileLost: true})
 	for i, p := range []string{"launched-not-running", "configure-outstanding", "configured", "running", "stop-outstanding", "teardown-first-kill"} {
 		out = append(out, c18Scenario{Kind: "crash", Point: p, Shape: i % 3})
 	}
@@ -72,6 +90,13 @@ func c18Run(c *vlib.Ctx, idx int, sc c18Scenario) {
 	id := c.Case(map[string]interface{}{"index": idx, "scenario": sc})
 	c.Sample(sc)
 	cls := sc.Kind + "/" + sc.Point
+	if sc.NoCheckpoint {
+		cls += "+nocheckpoint"
+		c.Count("scenarios_without_checkpointing", 1)
+	}
+	if sc.ReconcileLost {
+		cls += "+reconcile-lost"
+	}
 	c.Nontrivial(vlib.Hash("c18", cls, sc.Shape))
 	obs := &c18Obs{Scenario: sc, Index: idx}
 	wfName := fmt.Sprintf("c18w%d", idx)
@@ -81,7 +106,11 @@ func c18Run(c *vlib.Ctx, idx int, sc c18Scenario) {
 		{{Name: "a", Host: "host1", Critical: true, Mode: "fairmq"}, {Name: "b", Host: "host1", Critical: true, Mode: "basic"}, {Name: "c", Host: "host2", Critical: false, Mode: "direct"}},
 	}
 	wf := coresim.WorkflowSpec{Name: wfName, Hosts: []string{"host1"}, Defaults: map[string]string{"deploy_timeout": "60s"}, Tasks: shapes[sc.Shape]}
-	s, err := coresim.Start(coresim.Options{Agents: stdAgents(2), Detectors: stdDetectors(2), Files: wf.Files()})
+	opt := coresim.Options{Agents: stdAgents(2), Detectors: stdDetectors(2), Files: wf.Files()}
+	if sc.NoCheckpoint {
+		opt.Settings = map[string]string{"mesosCheckpoint": "false"}
+	}
+	s, err := coresim.Start(opt)
 	if err != nil {
 		c.Inconclusive("coresim start: " + truncate(err.Error(), 3000))
 		return
@@ -139,6 +168,15 @@ func c18Run(c *vlib.Ctx, idx int, sc c18Scenario) {
 			return simmesos.Reply{Kind: "ok", Gate: gate}
 		}
 		return simmesos.Reply{Kind: "ok"}
+	}
+	var reconcileRefused atomic.Bool
+	if sc.ReconcileLost {
+		s.Master.OnCall = func(call *scheduler.Call, m *simmesos.Master) *simmesos.CallFault {
+			if restarted.Load() && call.GetType() == scheduler.Call_RECONCILE && reconcileRefused.CompareAndSwap(false, true) {
+				return &simmesos.CallFault{HTTPStatus: 503}
+			}
+			return nil
+		}
 	}
 	s.Master.OnKill = func(t *simmesos.LaunchedTask) string {
 		if sc.Kind == "crash" && sc.Point == "teardown-first-kill" && !restarted.Load() {
@@ -261,6 +299,13 @@ func c18Run(c *vlib.Ctx, idx int, sc c18Scenario) {
 		}
 		for time.Now().Before(deadline) && len(alive()) > 0 {
 			time.Sleep(50 * time.Millisecond)
+		}
+		if sc.ReconcileLost {
+			if !reconcileRefused.Load() {
+				c.Inconclusive(fmt.Sprintf("scenario %d: the new life sent no RECONCILE call that could be refused", idx))
+				return
+			}
+			c.Count("reconcile_calls_refused", 1)
 		}
 		c.Count("first_life_tasks", int64(len(firstLife)))
 		if a := alive(); len(a) > 0 {
